@@ -34,8 +34,11 @@ class GitError(Exception):
 
 def git(repo, ceiling, *args):
     assert os.path.isdir(repo) and os.path.abspath(repo).startswith(os.path.abspath(ceiling) + os.sep)
-    p = subprocess.run(["git", "-C", repo] + list(args), env=git_env(ceiling), stdout=subprocess.PIPE,
-                       stderr=subprocess.PIPE, timeout=120)
+    try:
+        p = subprocess.run(["git", "-C", repo] + list(args), env=git_env(ceiling), stdout=subprocess.PIPE,
+                           stderr=subprocess.PIPE, timeout=600)
+    except subprocess.TimeoutExpired:
+        raise GitError(f"git {' '.join(args)} in {repo}: timed out")
     if p.returncode != 0:
         raise GitError(f"git {' '.join(args)} in {repo}: {p.stderr.decode('utf-8', 'replace')[:400]}")
     return p.stdout.decode().strip()
